@@ -218,6 +218,7 @@ theorem C08_wallet_failed_keeps_disk (s : State) (op : Op) (h : (step s op).2.is
       cases hc2 : (chStep (chStep (begin s) false po pn).1 true vo vn).2 with
       | some e => simp only [hc, hc2]; rfl
       | none => simp [hc, hc2, Res.isErr] at h
+  | restart => rfl
 
 /-! ## 2. the coherence invariant holds after every history -/
 
